@@ -343,6 +343,18 @@ def tagsweep(ctx):
         ranges = [(base, base + (1 << 24))]
     procs = [subprocess.Popen([vlib.HARNESS, "tagsweep", str(lo), str(hi)], stdout=subprocess.PIPE, text=True)
              for lo, hi in ranges]
+    # every run: all words within two byte positions of a known tag (where a mistyped, legacy or
+    # case-variant spelling lives)
+    near = subprocess.run([vlib.HARNESS, "tagsweep", "near"], stdout=subprocess.PIPE, text=True).stdout.strip()
+    if not near.startswith("TAGSWEEP-OK"):
+        # a concrete input: the one-field message carrying that word as its tag
+        import re as _re
+        m = _re.search(r"word=([0-9a-f]{8})", near)
+        inp = ("01000000" + m.group(1)) if m else ""
+        ctx.violation("property", "the decoder's tag table differs from the known tags (Tag::from_wire vs wire_value): " + near,
+                      {"cmd": "fb", "input_hex": inp, "output": near})
+    else:
+        ctx.count("tagsweep_near_words", int(near.split()[1]))
     total = 0
     for p, (lo, hi) in zip(procs, ranges):
         out = p.communicate()[0].strip()
